@@ -4,7 +4,11 @@
      desa <amax-hex> <bytes-hex> -> same with an allocator that refuses arrays of more than amax elements
      rt <value>              -> ok <n> <value> | err | oob
      req <idx-hex> <value>...-> ok <payload-hex> | argfail <i> | overrun        (vm_ffi_call_cop request payload)
-     reply <value>           -> <payload-hex>                                   (handle_ffi_req result payload)
+     reqfit <idx-hex> <value>... -> ok | argfail <i> | overrun                   (same, without printing the payload)
+     reply <value>           -> result <payload-hex> | error <text-hex>          (handle_ffi_req answer for a result value)
+     replykind <value>       -> result | error
+   extra value syntax for large inputs: S<len-dec> = string of <len> bytes 'x'; I<count-dec> = array<int> [0..count-1];
+   R<count-dec>x<len-dec> = array (element type 1) of <count> strings of <len> bytes 'x'
      tr <value>              -> 1 | 0                                           (transferableb)
    value syntax: v | i<hex> | f<hex> | b0 | b1 | s<hex>|s- | o<hex> | a<etype-hex>[v,...] | t<tag-hex> *)
 let is_hex c = (c >= '0' && c <= '9') || (c >= 'a' && c <= 'f') || (c >= 'A' && c <= 'F')
@@ -23,6 +27,19 @@ let parse_value (s : ostring) : value =
     | 't' -> VOther (n_of_hex (hex ()))
     | 'b' -> let d = peek () in incr pos; VBool (d = '1')
     | 's' -> if peek () = '-' then (incr pos; VStr []) else VStr (bytes_of_hex (hex ()))
+    | 'S' -> let st = !pos in while !pos < n && s.[!pos] >= '0' && s.[!pos] <= '9' do incr pos done;
+             let k = int_of_string (String.sub s st (!pos - st)) in
+             let x = n_of_int 120 in VStr (List.init k (fun _ -> x))
+    | 'R' -> let st = !pos in while !pos < n && s.[!pos] >= '0' && s.[!pos] <= '9' do incr pos done;
+             let k = int_of_string (String.sub s st (!pos - st)) in
+             incr pos;   (* 'x' *)
+             let st2 = !pos in while !pos < n && s.[!pos] >= '0' && s.[!pos] <= '9' do incr pos done;
+             let l = int_of_string (String.sub s st2 (!pos - st2)) in
+             let x = n_of_int 120 in let str = VStr (List.init l (fun _ -> x)) in
+             VArr (n_of_int 1, List.init k (fun _ -> str))
+    | 'I' -> let st = !pos in while !pos < n && s.[!pos] >= '0' && s.[!pos] <= '9' do incr pos done;
+             let k = int_of_string (String.sub s st (!pos - st)) in
+             VArr (n_of_int 1, List.init k (fun i -> VInt (n_of_int i)))
     | 'a' -> let et = n_of_hex (hex ()) in
              if peek () = '[' then incr pos;
              let es = ref [] in
@@ -67,7 +84,17 @@ let () = iter_lines (fun line ->
        | ReqOk p -> print_string ("ok " ^ hex_of_bytes_fast p ^ "\n")
        | ReqArgFail i -> print_string ("argfail " ^ string_of_int (int_of_n i) ^ "\n")
        | ReqOverrun -> print_string "overrun\n")
-  | ["reply"; v] -> print_string (hex_of_bytes_fast (reply_payload (parse_value v)) ^ "\n")
+  | "reqfit" :: idx :: vs ->
+      (match build_request (n_of_hex idx) (List.map parse_value vs) with
+       | ReqOk _ -> print_string "ok\n"
+       | ReqArgFail i -> print_string ("argfail " ^ string_of_int (int_of_n i) ^ "\n")
+       | ReqOverrun -> print_string "overrun\n")
+  | ["reply"; v] ->
+      let (ty, p) = build_reply (ORes (parse_value v)) in
+      print_string ((if int_of_n ty = 0x10 then "result " else "error ") ^ hex_of_bytes_fast p ^ "\n")
+  | ["replykind"; v] ->
+      let (ty, _) = build_reply (ORes (parse_value v)) in
+      print_string (if int_of_n ty = 0x10 then "result\n" else "error\n")
   | ["tr"; v] -> print_string (if transferableb (parse_value v) then "1\n" else "0\n")
   | [] -> ()
   | _ -> print_string "bad\n")
